@@ -173,6 +173,9 @@ class Tracer:
         self.vfm, self.vf, self.max_nodes = vfm, vf, max_nodes
         self.snaps = []          # list of (label, forest)
         self._depth = 0
+        self._in_cse = False
+        self.cse_records = []    # [variable reference, replaced occurrence] per replacement
+        self.max_cse_records = 200
 
     def snap(self, label):
         self.snaps.append((label, dump_forest(self.vfm, self.vf, self.max_nodes)))
@@ -185,6 +188,19 @@ class Tracer:
         def transform(fun, type=None, deep=True):
             label = 'transform:%s:%s:%s' % (getattr(fun, '__name__', '?'), type.__name__ if type else 'None',
                                             'deep' if deep else 'shallow')
+            if tr._in_cse:
+                # a replacement round of extract_common_expressions: record which occurrences the
+                # implementation replaces by which variable (observed on the hashes it really uses)
+                fun0 = fun
+
+                def fun(e):
+                    out = fun0(e)
+                    if out is not None and len(tr.cse_records) < tr.max_cse_records:
+                        try:
+                            tr.cse_records.append([dump_expr(tr.vfm, out, [50]), dump_expr(tr.vfm, e, [3000])])
+                        except TooBig:
+                            pass
+                    return out
             tr._depth += 1
             try:
                 r = cls.transform(vf, fun, type=type, deep=deep)
@@ -196,10 +212,12 @@ class Tracer:
 
         def extract_common_expressions():
             tr._depth += 1
+            tr._in_cse = True
             try:
                 r = cls.extract_common_expressions(vf)
             finally:
                 tr._depth -= 1
+                tr._in_cse = False
             tr.snap('cse')
             return r
 
